@@ -10,6 +10,10 @@ CLAIMS = {
          "Renderings (short notation / JSON blocks) are checked by parsing them back in the harness; their Lean statement is partial.", "8/C02"),
  'C03': ("Lean theorems: a path is reported only if it is a matched walk to a leaf with no validated block, so if every such walk has a validated block nothing is reported (C03_no_report); exactness of the set domains and of the fee chain; direct checks validate their block; + correspondence of contexts and paths + EXACT verdict oracle on the systematic direct-check family (field x operator x operand order x constant x consumption form x unknown-operand variants), where the concrete semantics coincides with the literal reading and every (size,index) / fee representative is enumerated",
          "The distributive-framework argument (computed context = union over paths) is not yet a Lean theorem; exactness is decided on the direct-check family by exhaustive region enumeration.", "8/C03"),
+ 'C16': ("Lean theorems (kernel decide over the parse table REGENERATED from the real parse_line on every run): every opcode sample is parsed into the class and printed form of the specification table (no prefix capture), its printed form parses back to an identical instruction, unknown opcodes are kept verbatim; + the real parser run on every sample x whitespace/comment variants, decimal/hex/octal integer spellings, hex/base64/base32 byte forms, programs with blank and comment lines for the recorded line numbers",
+         "Python's int(), base64 and re are not modelled (partial by nature). Known finding F19 (method signature printed without quotes).", "8/C16"),
+ 'C19': ("Lean theorems (kernel decide over regenerated tables): introduction version, execution mode and per-version opcode cost of every sample equal the specification tables; model of the version flag and of mode detection; + the real parse_teal run on every sample x declared versions 1..8 (stderr of the version check), random mode mixtures (mode, mixed-mode report, contract type) and random blocks (displayed cost = sum of table costs)",
+         "Specification tables are reviewed snapshots (no AVM spec file offline). Field introduction versions are not specified independently (partial). Known finding F18 (sha3_256 cost).", "8/C19"),
  'C12': ("Lean model of copy_main_cfg / construct_function incl. error blocks and the used-subroutine closure (Function.lean), tied by correspondence of the function graph and all contexts for every sampled dispatch path; oracle: contexts are sound w.r.t. exactly the accepting executions whose block trace starts with the path; the contract's graph is unchanged by building functions; results do not depend on the order in which functions are built",
          "Theorems specific to construct_function are in progress; the flow theorems apply to the function graph as to any graph. Known findings F15, F16.", "8/C12"),
  'C04': ("Lean theorems about the model of parse_teal's four passes + correspondence of block structure, ordered successor/predecessor lists, retained set with /repo + check that the block trace of every concrete execution of the Lean AVM semantics is a matched walk of the tool's graph",
